@@ -34,7 +34,7 @@ func runSANum(c *load.Ctx, r *report.RuleResult) {
 	// The driver models Scan's loop as read on the tree: for each byte, index := i; finished := true;
 	// ok := stateFn(c); at the end the numeral is accepted iff finished. That shape is checked here.
 	if why := checkScanLoopShape(c); why != "" {
-		r.Unk("shape|internal/json.(*scanner).Scan", pos, "Scan no longer has the loop shape the model assumes: "+why)
+		r.Unk("shape|internal/json.(scanner).Scan", pos, "Scan no longer has the loop shape the model assumes: "+why)
 		return
 	}
 	var init pe.Value
